@@ -334,7 +334,7 @@ func (vc *VC) execAppend(fr *Frame, st *State, c *ssa.CallCommon, v ssa.Value) {
 	if one, ok := vc.singleElem(fr, st, c.Args[1]); ok {
 		a := vc.alloc(st, "arr")
 		cur := vc.get(st, ev)
-		vc.set(st, ev, fmt.Sprintf("(store %s %s (store (select %s (s_arr %s)) (+ (s_off %s) (s_len %s)) %s))", cur, a, cur, s, s, s, one))
+		vc.set(st, ev, fmt.Sprintf("(store %s %s (store (select %s (s_arr %s)) (ix (s_off %s) (s_len %s)) %s))", cur, a, cur, s, s, s, one))
 		n := vc.def("Int", fmt.Sprintf("(+ (s_len %s) 1)", s), "alen")
 		capv := vc.fresh("Int", "acap")
 		vc.fact(st.pc, fmt.Sprintf("(>= %s %s)", capv, n))
@@ -675,6 +675,15 @@ func (vc *VC) modCall(fn *ssa.Function, c *ssa.CallCommon, out map[string]bool, 
 		return
 	}
 	for _, callee := range callees {
+		switch callee.String() {
+		case "(*sync.Mutex).Lock", "(*sync.RWMutex).Lock", "(*sync.RWMutex).RLock", "(*sync.Cond).Wait":
+			out["G_held"] = true
+			out["L|*"] = true
+			for _, k := range vc.eng.guardedSVs(vc) {
+				out[k] = true
+			}
+			continue
+		}
 		if eff := modelEffects(callee.String()); eff != nil {
 			for _, k := range eff {
 				out[k] = true
